@@ -197,7 +197,10 @@ impl WTClient {
     /// Sets the tower status to any of the `TowerStatus` variants.
     pub fn set_tower_status(&mut self, tower_id: TowerId, status: TowerStatus) {
         if let Some(tower) = self.towers.get_mut(&tower_id) {
-            if tower.status != status {
+            if tower.status.is_misbehaving() {
+                // There is proof of this tower misbehaving. That is not something that goes away.
+                log::warn!("{tower_id} is misbehaving. Its status cannot be changed to {status}");
+            } else if tower.status != status {
                 tower.status = status
             } else {
                 log::debug!("{tower_id} status is already {status}")
@@ -310,6 +313,10 @@ impl WTClient {
     /// Flags a given tower as misbehaving, storing the misbehaving proof in the database.
     pub fn flag_misbehaving_tower(&mut self, tower_id: TowerId, proof: MisbehaviorProof) {
         if let Some(tower) = self.towers.get_mut(&tower_id) {
+            // One proof is enough (several requests may have been in flight when the tower misbehaved)
+            if tower.status.is_misbehaving() {
+                return;
+            }
             self.dbm.store_misbehaving_proof(tower_id, &proof).unwrap();
             tower.status = TowerStatus::Misbehaving;
         } else {
